@@ -11,7 +11,18 @@ verus! {
 #[derive(Clone, Copy, PartialEq, Eq, Structural)]
 pub struct SyntectColor { pub r: u8, pub g: u8, pub b: u8, pub a: u8 }
 #[derive(Clone, Copy, PartialEq, Eq, Structural)]
-pub struct SyntectStyle { pub foreground: SyntectColor, pub background: SyntectColor, pub font_style: u8 }
+pub struct SyntectStyle { pub foreground: SyntectColor, pub background: SyntectColor, pub font_style: FontStyle }
+/// syntect's `FontStyle` bit set (bold 1, underline 2, italic 4); named so that code which looks at it is decided by the
+/// obligations (delta takes nothing but the foreground from a syntax style)
+#[derive(Clone, Copy, PartialEq, Eq, Structural)]
+pub struct FontStyle { pub bits: u8 }
+impl FontStyle {
+    pub const BOLD: FontStyle = FontStyle { bits: 1 };
+    pub const UNDERLINE: FontStyle = FontStyle { bits: 2 };
+    pub const ITALIC: FontStyle = FontStyle { bits: 4 };
+    #[verifier::external_body]
+    pub fn contains(&self, other: FontStyle) -> (r: bool) { unimplemented!() }
+}
 
 /// `utils::bat::terminal::to_ansi_color` (verified separately; here a function of its arguments).
 pub uninterp spec fn to_ansi_color_spec(c: SyntectColor, true_color: bool) -> Option<ansi_term::Color>;
